@@ -65,6 +65,7 @@ func draw(t *rapid.T) Case {
 	st := &ref.State{Root: doc.Clone()}
 	if r := ref.Step(st, ops[0], ro); r.Cause == ref.COK {
 		g := gen.NewOpGen(neg).Calm()
+		g.NoNegInner = true
 		m := gen.Uniform(t, 0, 3, "more")
 		for i := 0; i < m; i++ {
 			op := g.Next(t, st.Root, i+1)
@@ -90,6 +91,7 @@ func drawAfterEdits(t *rapid.T) Case {
 	ro := ref.Opts{Neg: neg, Ensure: true}
 	st := &ref.State{Root: doc.Clone()}
 	g := gen.NewOpGen(neg).Calm()
+	g.NoNegInner = true
 	g.Kinds = []string{"remove", "remove", "move", "add", "copy", "replace"}
 	var ops []ref.Op
 	step := func(op ref.Op) bool {
